@@ -454,10 +454,15 @@ fn check_safety(w: &World, out: &mut Outcome) {
     gone_events.sort();
     for (t, ci, x) in gone_events {
         let c = &cs[ci];
-        // the notice is queued when the entry disappears and written later: id x must
-        // possibly have been absent at some instant since the receiver registered
-        if !rig::possibly_absent(&lives, x, c.rig.reg_call, t) {
-            out.v("C06:peer-gone-notice-while-still-connected", format!("conn {ci}: EndpointGone(id {x}) at t={t} although a connection of id {x} was registered all the time since conn {ci} registered"));
+        // The entry disappears, then (outside the registry lock) the peers are looked up and
+        // the notice is queued on whatever connection the peer id has *then*, and written
+        // later still.  So all that can be demanded of the write instant t: id x was
+        // possibly absent at some instant between its first send to this peer id and t.
+        let first_send = sends.iter().filter(|s| cs[s.from].id == x && s.dst == c.id && s.t_send < t).map(|s| s.t_send).min();
+        if let Some(t0) = first_send {
+            if !rig::possibly_absent(&lives, x, t0, t) {
+                out.v("C06:peer-gone-notice-while-still-connected", format!("conn {ci}: EndpointGone(id {x}) at t={t} although a connection of id {x} was registered all the time since id {x} first sent to id {} (t={t0})", c.id));
+            }
         }
         let n_sends = sends.iter().filter(|s| cs[s.from].id == x && s.dst == c.id && s.t_send < t).count() as u64;
         let n = gone_count.entry((x, c.id)).or_default();
